@@ -84,6 +84,21 @@ class Machine:
         self.frame_regs = {}       # symbol id -> name for frame bases
         self.executed = 0
         self.scalar_frame_log = []  # every 32-bit scalar value stored to the frame, in order: (slot, term)
+        self.def_values = None      # optional: (insn addr, gpr) -> value right after that instruction
+
+    def clone(self):
+        M = Machine(self.obj, self.T)
+        M.gpr = dict(self.gpr)
+        M.vec = {k: list(v) for k, v in self.vec.items()}
+        M.k = {k: list(v) for k, v in self.k.items()}
+        M.flags = self.flags
+        M.lowbyte = dict(self.lowbyte)
+        M.small = set(self.small)
+        M.frame = dict(self.frame)
+        M.frame64 = dict(self.frame64)
+        M.frame_regs = dict(self.frame_regs)
+        M.rodata = self.rodata
+        return M
 
     # ---------------------------------------------------------------- symbols ----
     def sym64(self, name, small=False):
@@ -179,6 +194,8 @@ class Machine:
         if index:
             if "*" in index:
                 r, sc = index.split("*")
+                if re.fullmatch(r"\d+", r.strip()):
+                    r, sc = sc, r
                 g = g.add(self.reg(canon_reg(r)).scale(int(sc)))
             else:
                 g = g.add(self.reg(canon_reg(index)))
@@ -209,7 +226,15 @@ class Machine:
             base = 0 if name == secname else o.symbols[name][1]
             off = base + addend + (nxt - ins.reloc_addr)
         else:
-            off = o.symbols[name][1] + disp
+            # COFF IMAGE_REL_AMD64_REL32: the field holds the addend relative to the end of the 4-byte field; bytes that
+            # follow the field (an immediate) move the real next-instruction pointer by t
+            t = (ins.addr + ins.size) - (ins.reloc_addr + 4)
+            m2 = re.fullmatch(r"IMAGE_REL_AMD64_REL32(?:_(\d))?", ins.reloc_type)
+            if not m2:
+                raise Unsupported("relocation type %s" % ins.reloc_type)
+            if m2.group(1):
+                t -= int(m2.group(1))
+            off = o.symbols[name][1] + disp + t
         if off < 0 or off + n > len(data):
             raise Unsupported("pool access out of the read-only section: %s" % ins.raw)
         return data[off:off + n]
@@ -466,6 +491,10 @@ class Machine:
         if h is None:
             raise Unsupported("instruction %s (%s)" % (mn, ins.raw))
         h(self, ins)
+        if self.def_values is not None:
+            for r in asmabi.writes(ins):
+                if r in self.gpr:
+                    self.def_values[(ins.addr, r)] = self.gpr[r]
 
 
 LOW8 = {"al", "bl", "cl", "dl", "sil", "dil", "bpl", "spl"} | {"r%db" % i for i in range(8, 16)}
@@ -570,6 +599,8 @@ def t_sub(T, a, b):
     cb = T.cval(b)
     if cb is not None:
         return T.add(a, T.const((-cb) & M32))
+    if T.rev[b][0] == "mask":          # x - (all-ones if c else 0)  ==  c ? x + 1 : x
+        return T.mk("sel", T.rev[b][1], T.add(a, T.const(1)), a)
     return T.add(a, T.mk("neg", b))
 
 
@@ -598,7 +629,36 @@ SEM.update({k: lanewise(t_xor) for k in ("pxor", "vpxor", "vpxord", "xorps", "vx
 SEM.update({k: lanewise(t_or) for k in ("por", "vpor", "vpord")})
 SEM.update({k: lanewise(t_and) for k in ("pand", "vpand", "vpandd")})
 SEM.update({k: lanewise(t_sub) for k in ("psubd", "vpsubd")})
-SEM.update({k: lanewise(lambda T, a, b: T.mk("gts", a, b)) for k in ("pcmpgtd", "vpcmpgtd")})
+def t_gts(T, a, b):
+    """signed a > b as an all-ones/zero lane; the MSB-flipped form is the unsigned comparison: mask(ltu(b', a'))"""
+    ta, tb = T.rev[a], T.rev[b]
+    MSB = 0x80000000
+
+    def unflip(x, t):
+        c = T.cval(x)
+        if c is not None:
+            return T.const(c ^ MSB)
+        if t[0] == "xor":
+            items = list(t[1])
+            cs = [y for y in items if T.rev[y] == ("c", MSB)]
+            if cs:
+                items.remove(cs[0])
+                return items[0] if len(items) == 1 else T.mk("xor", tuple(items))
+        return None
+    ua, ub = unflip(a, ta), unflip(b, tb)
+    if ua is not None and ub is not None:
+        if ua == ub:
+            return T.const(0)
+        ca, cb = T.cval(ua), T.cval(ub)
+        if ca is not None and cb is not None:
+            return T.const(M32 if ca > cb else 0)
+        if ca == 0:
+            return T.const(0)          # nothing is below zero (unsigned)
+        return T.mk("mask", T.mk("ltu", ub, ua))
+    return T.mk("gts", a, b)
+
+
+SEM.update({k: lanewise(t_gts) for k in ("pcmpgtd", "vpcmpgtd")})
 
 
 @sem("pslld", "psrld", "vpslld", "vpsrld", "vprord", "vprold")
@@ -660,8 +720,9 @@ def _movd(M, ins):
         elif sr:
             g = M.reg(sr)
             lanes = [M.lo32(g), M.hi32(g) if q else T.const(0)]
-            if not q:
-                M.scalar_frame_log.append((("gpr", sr), lanes[0]))
+            M.scalar_frame_log.append((("gpr", sr), lanes[0]))
+            if q:
+                M.scalar_frame_log.append((("gpr", sr), lanes[1]))
         else:
             a = M.addr(mem_operand(s))
             lanes = [M.load32(a, 0), M.load32(a, 4) if q else T.const(0)]
@@ -687,8 +748,9 @@ def _pinsrd(M, ins):
     sr = canon_reg(s)
     if sr:
         t = M.lo32(M.reg(sr))
+        M.scalar_frame_log.append((("gpr", sr), t))
     else:
-        t = M.load32(M.addr(mem_operand(s)), 0)
+        t = M.load_lanes(ins, s, 1)[0]
     lanes[int(imm, 0) & 3] = t
     M.vdst(ins, d, lanes, is_vex(ins.mn))
 
@@ -1083,6 +1145,10 @@ def arith(op):
                 r = G({}, {"and": a.c & b.c, "or": a.c | b.c, "xor": a.c ^ b.c}[op])
             elif op == "xor" and a.key() == b.key():
                 r = G({}, 0)
+            elif op == "or" and w == 8 and b.is_const() and b.c <= M32 and a.c & M32 == 0 and all(co & M32 == 0 for co in a.items.values()):
+                r = a.add(b)          # the operands occupy disjoint halves: or == add
+            elif op == "or" and w == 8 and a.is_const() and a.c <= M32 and b.c & M32 == 0 and all(co & M32 == 0 for co in b.items.values()):
+                r = a.add(b)
             elif op == "and" and b.is_const() and is_align_mask(b.c):
                 sid = T.mk("and64", a.key(), b.c)
                 r = G({sid: 1})
